@@ -470,6 +470,14 @@ func (e *c09Env) judge(res c09Result, caseNo int64, phase string, queuePos int) 
 				time.Sleep(2 * time.Millisecond)
 			}
 		}
+		// a request that was sent sits in the farm's socket buffer until the farm's goroutine gets to it: on a loaded host that can be
+		// after the call has given up - give the farm a second to log it before concluding that nothing was ever sent
+		for k := 0; k < 500; k++ {
+			if v, seen := e.timing.Load(res.serial); seen && v.(*c09Timing).recv.Load() != 0 {
+				break
+			}
+			time.Sleep(2 * time.Millisecond)
+		}
 		// the obligation exists only if the farm measurably sent the reply early enough
 		if in, off := e.answeredInTime(res.serial, 0.8); !in {
 			asked := false
@@ -563,6 +571,12 @@ func c09(c *Ctx) {
 				// timing verdict: a must-succeed call that failed is confirmed by a second attempt (a loaded host can
 				// delay the farm's or the client's goroutine past the margin); a deterministic defect fails again
 				c.Res.Count("sequential:retried-after-failure", 1)
+				res = e.run(b, next(), bind)
+			}
+			if b.expect == "error" && res.err == "" && !res.hung && b.minT > 0 {
+				// the same for a call that succeeded on a reply sent after its deadline: the library's deadlines are runtime timers, and a
+				// timer that fires late on a starved processor lets a late reply through - once; a defect does it again
+				c.Res.Count("sequential:retried-after-unexpected-success", 1)
 				res = e.run(b, next(), bind)
 			}
 			res.fixed = fixed
@@ -917,6 +931,10 @@ func c09(c *Ctx) {
 					if b.expect == "success" && res.err != "" && !res.hung {
 						// under parallel load a late wake-up of the client can eat the margin: confirm on a second attempt
 						c.Res.Count("leak-batch:retried-after-failure", 1)
+						res = e.run(b, s+1<<13, workerIP(c, w)+":0")
+					}
+					if b.expect == "error" && res.err == "" && !res.hung && b.minT > 0 {
+						c.Res.Count("leak-batch:retried-after-unexpected-success", 1)
 						res = e.run(b, s+1<<13, workerIP(c, w)+":0")
 					}
 					e.judge(res, int64(1000000+w), "leak-batch", 0)
